@@ -3354,8 +3354,8 @@ class sptensor:
             # Both nonzero
             if self.subs.size > 0 and other.subs.size > 0:
                 idxSelf = tt_intersect_rows(self.subs, other.subs)
-                idxOther = tt_intersect_rows(other.subs, self.subs)
                 newsubs = self.subs[idxSelf, :]
+                _, idxOther = tt_ismember_rows(newsubs, other.subs)
                 newvals = self.vals[idxSelf] / other.vals[idxOther]
             else:
                 newsubs = np.empty((0, len(self.shape)), dtype=int)
@@ -3367,7 +3367,7 @@ class sptensor:
                 morevals = np.empty((moresubs.shape[0], 1))
                 morevals.fill(np.nan)
                 if moresubs.size > 0:
-                    newsubs = np.vstack((newsubs, SelfZeroSubs[moresubs, :]))
+                    newsubs = np.vstack((newsubs, self.subs[moresubs, :]))
                     newvals = np.vstack((newvals, morevals))
 
             # other nonzero and self zero
@@ -3376,7 +3376,7 @@ class sptensor:
                 morevals = np.empty((moresubs.shape[0], 1))
                 morevals.fill(0)
                 if moresubs.size > 0:
-                    newsubs = np.vstack((newsubs, OtherZeroSubs[moresubs, :]))
+                    newsubs = np.vstack((newsubs, other.subs[moresubs, :]))
                     newvals = np.vstack((newvals, morevals))
 
             # Both zero
